@@ -145,6 +145,24 @@ func run(c *mon.Ctx) {
 	c.Assume("oracle = the definitions in the property statement computed with uint64 arithmetic; After on general pairs is only held to the stated axioms (irreflexive, asymmetric, total), not to a particular formula")
 	nb := neighbourhood()
 	c.Exhaustive("all ordered pairs over the boundary neighbourhoods", int64(len(nb)*len(nb)))
+	c.Floor("concurrent.calls", 20000)
+	c.Stream("concurrent-callers", c.N(3, 150), func(i int, r *gen.Rand) {
+		c.Concurrent("PTS arithmetic", 8, 4000, r, func(q *gen.Rand) string {
+			p := q.Uint64() & maxV
+			if q.Chance(3) {
+				p = maxV - q.Uint64()%(2*window)
+			}
+			d := 1 + q.Uint64()%window
+			P := gots.PTS(p)
+			s := P.Add(gots.PTS(d))
+			wrapped := p+d >= mod
+			if uint64(s) != (p+d)%mod || !s.After(P) || P.After(s) || !s.GreaterOrEqual(P) || s.RolledOver(P) != wrapped || s.DurationFrom(P) != d || P.DurationFrom(s) != d {
+				return fmt.Sprintf("p=%d d=%d: Add=%d After=%v/%v RolledOver=%v DurationFrom=%d/%d", p, d, s, s.After(P), P.After(s), s.RolledOver(P), s.DurationFrom(P), P.DurationFrom(s))
+			}
+			return ""
+		})
+		c.Class("concurrent-callers")
+	})
 	c.StreamSeedless("boundary-pairs", len(nb), func(i int, r *gen.Rand) {
 		p := nb[i]
 		for _, q := range nb {
